@@ -3,7 +3,7 @@
 import numpy as np
 
 from ..core import violation, Discard
-from ..gen_scenes import gen_contact_scene
+from ..gen_scenes import gen_contact_scene, rotate_contact_scene
 from ..scenes import build
 from ..seams import Sim
 from .. import rot
@@ -88,6 +88,9 @@ def gen(rng, tier, index):
             if b["kind"] == "rigid":
                 b["theta"] = (np.array(b["theta"], dtype=float) * sc).tolist()
         scene["mass_scale"] = sc
+    if rng.random() < 0.4:
+        # the whole scene rigidly moved: gravity and plane normals then point in arbitrary directions
+        rotate_contact_scene(scene, rot.rand_quat(rng), rng.uniform(-1, 1, 3))
     return {"scene": scene, "solver": solver, "free": free}
 
 
@@ -286,6 +289,8 @@ def monitor(R, out, log, plan):
         out["probes"]["rescaled_masses_session"] += 1
     if np.any(eF != 0):
         out["probes"]["tangential_restitution_session"] += 1
+    if B.scene.get("moved"):
+        out["probes"]["rigidly_moved_scene_session"] += 1
     out["worst"] = worst
     return ["".join(m)[:12] for m in modes]
 
